@@ -12,6 +12,11 @@
 //!   R <comp> <tr> <ver> <events>                   REGISTER (ver 1 = Register, 2 = RegisterV2)
 //!   O <comp> <tr>                                  OPTIONS
 //!   A <comp> <tr> <token|N>                        AUTH_RESPONSE
+//!   L <n> <textlen>                                uncompressed BATCH of n identical unprepared statements of
+//!                                                  textlen bytes, empty value lists: only sizes are reported
+//!                                                  (`len <body size> <header length field>`), used for the
+//!                                                  >= 4 GiB body (finding frame-len32-wrap); `skipped` when
+//!                                                  the machine has too little free memory
 //! comp: n | l | s;  tr: 0 | 1
 //! byte string: "-" (empty) | hex pairs | x<hh>^<count-hex> (one byte repeated)
 //! qparams: <cons-code> <serial -|8|9> <timestamp -|hex> <page_size -|hex> <paging N|bytes> <skip 0|1> <cells>
@@ -249,6 +254,9 @@ fn qparams<'a>(f: &[&str], values: &'a SerializedValues) -> QueryParameters<'a> 
 
 fn run_case_inner(case: &str) -> String {
     let f: Vec<&str> = case.split_whitespace().collect();
+    if f[0] == "L" {
+        return run_len_case(hx(f[1]) as usize, hx(f[2]) as usize);
+    }
     let c = comp(f[1]);
     let tr = f[2] == "1";
     match f[0] {
@@ -407,6 +415,41 @@ fn run_case_inner(case: &str) -> String {
     }
 }
 
+fn mem_available_kib() -> u64 {
+    std::fs::read_to_string("/proc/meminfo")
+        .ok()
+        .and_then(|m| {
+            m.lines().find(|l| l.starts_with("MemAvailable:")).and_then(|l| l.split_whitespace().nth(1).and_then(|v| v.parse().ok()))
+        })
+        .unwrap_or(0)
+}
+/// sizes only: body size and the header's length field of a BATCH of n statements sharing one text
+fn run_len_case(n: usize, tlen: usize) -> String {
+    let need = (n as u64 * tlen as u64 + tlen as u64) / 1024;
+    if need > (1 << 20) && mem_available_kib() < 2 * need + (4 << 20) {
+        return "skipped".into();
+    }
+    let text = "s".repeat(tlen);
+    let stmts: Vec<BatchStatement<'_>> = (0..n).map(|_| BatchStatement::Query { text: Cow::Borrowed(text.as_str()) }).collect();
+    let values: Vec<SerializedValues> = (0..n).map(|_| SerializedValues::new()).collect();
+    let b = Batch {
+        statements: Cow::Borrowed(&stmts[..]),
+        batch_type: BatchType::Logged,
+        consistency: Consistency::One,
+        serial_consistency: None,
+        timestamp: None,
+        values,
+    };
+    match SerializedRequest::make(&b, None, false) {
+        Err(e) => err_class(&e),
+        Ok(sr) => {
+            let d = sr.get_data();
+            let field = u32::from_be_bytes([d[5], d[6], d[7], d[8]]);
+            format!("len {} {}", hex_u((d.len() - 9) as u128), hex_u(field as u128))
+        }
+    }
+}
+
 fn run_case(case: &str) -> String {
     let owned = case.to_string();
     match catch(move || run_case_inner(&owned)) {
@@ -435,9 +478,12 @@ fn rep_bytes(b: u8, n: usize) -> String {
     if n == 0 { "-".into() } else { format!("x{:02x}^{:x}", b, n) }
 }
 fn gen_text(r: &mut Rng) -> String {
+    if r.chance(1, 400) {
+        return rep_bytes(b'a', *r.pick(&[65535usize, 65536, 65537, 70000]));
+    }
     match r.below(40) {
-        0 => rep_bytes(b'a', *r.pick(&[65535usize, 65536, 65537, 70000])),
-        1 => rep_bytes(b' ', r.range(200, 5000) as usize),
+        0 => hex_bytes(b"SELECT now() FROM system.local"),
+        1 => rep_bytes(b' ', r.range(200, 3000) as usize),
         2 => "-".into(),
         3 => hex_bytes(b"?"),
         _ => {
@@ -451,10 +497,11 @@ fn gen_text(r: &mut Rng) -> String {
 }
 /// prepared-statement ids / metadata ids: [short bytes], boundary at 2^16
 fn gen_id(r: &mut Rng) -> String {
+    if r.chance(1, 300) {
+        return rep_bytes(r.below(256) as u8, *r.pick(&[65535usize, 65536, 65535, 65536, 65537, 70000, 131072]));
+    }
     match r.below(40) {
-        0 => rep_bytes(r.below(256) as u8, 65535),
-        1 => rep_bytes(r.below(256) as u8, 65536),
-        2 => rep_bytes(r.below(256) as u8, *r.pick(&[65537usize, 70000, 131072])),
+        0 | 1 | 2 => hex_bytes(&r.bytes(8)),
         3 => "-".into(),
         4 => hex_bytes(&r.bytes(1)),
         5 => hex_bytes(&rbytes(r, 2, 300)),
@@ -468,7 +515,7 @@ fn gen_cell(r: &mut Rng) -> String {
         3 => "v-".into(),
         4 => format!("v{}", hex_bytes(&rbytes(r, 20, 200))),
         5 => {
-            if r.chance(1, 10) {
+            if r.chance(1, 150) {
                 format!("v{}", rep_bytes(r.below(256) as u8, r.range(1000, 70000) as usize))
             } else {
                 format!("v{}", hex_bytes(&r.bytes(8)))
@@ -479,19 +526,22 @@ fn gen_cell(r: &mut Rng) -> String {
         _ => format!("v{}", hex_bytes(&rbytes(r, 1, 12))),
     }
 }
+fn gen_small_cell(r: &mut Rng) -> String {
+    r.pick(&["n", "u", "v-", "v00", "vffffffff", "v0102"]).to_string()
+}
 /// value list: mostly small, sometimes a few hundred, rarely at the u16 boundary
 fn gen_cells(r: &mut Rng, allow_huge: bool) -> String {
     let n = match r.below(100) {
         0..=24 => 0,
         25..=74 => r.range(1, 8),
-        75..=94 => r.range(9, 60),
-        95..=98 => r.range(61, 400),
+        75..=96 => r.range(9, 60),
+        97..=98 => r.range(61, 400),
         _ => {
             if allow_huge && r.chance(1, 8) {
                 let n = *r.pick(&[65535u64, 65536, 65534, 65537]);
                 // run-length form keeps the line short
                 let a = r.range(0, 3);
-                return format!("{}*{:x},{}*{:x}", gen_cell(r), a.max(1), gen_cell(r), n - a.max(1));
+                return format!("{}*{:x},{}*{:x}", gen_small_cell(r), a.max(1), gen_small_cell(r), n - a.max(1));
             }
             r.range(200, 700)
         }
@@ -521,9 +571,12 @@ fn gen_page(r: &mut Rng) -> String {
     hex_i(v as i128)
 }
 fn gen_paging(r: &mut Rng) -> String {
+    if r.chance(1, 200) {
+        return rep_bytes(r.below(256) as u8, *r.pick(&[65535usize, 65536, 100000]));
+    }
     match r.below(10) {
         0 => "-".into(),
-        1 => rep_bytes(r.below(256) as u8, *r.pick(&[65535usize, 65536, 100000])),
+        1 => hex_bytes(&r.bytes(200)),
         _ => hex_bytes(&rbytes(r, 1, 60)),
     }
 }
@@ -577,10 +630,7 @@ fn gen_execute(r: &mut Rng, mask: u64) -> String {
 }
 fn gen_stmt(r: &mut Rng) -> String {
     if r.bool() {
-        let t = match r.below(30) {
-            0 => rep_bytes(b'q', *r.pick(&[65535usize, 65536])),
-            _ => gen_text(r),
-        };
+        let t = gen_text(r);
         format!("q{}", t)
     } else {
         format!("p{}", gen_id(r))
@@ -591,7 +641,7 @@ fn gen_batch(r: &mut Rng) -> String {
     let ns: usize = match shape {
         0..=9 => 0,
         10..=69 => r.range(1, 6) as usize,
-        70..=92 => r.range(7, 40) as usize,
+        70..=96 => r.range(7, 40) as usize,
         _ => r.range(41, 300) as usize,
     };
     let stmts: Vec<String> = (0..ns).map(|_| gen_stmt(r)).collect();
@@ -604,9 +654,17 @@ fn gen_batch(r: &mut Rng) -> String {
     let mut huge = false;
     let vals: Vec<String> = (0..nv)
         .map(|_| {
-            let h = r.chance(1, 400);
+            let h = r.chance(1, 3000);
             huge |= h;
-            if h { format!("{}*{:x}", gen_cell(r), *r.pick(&[65535u64, 65536, 65537])) } else { gen_cells(r, false) }
+            if h {
+                format!("{}*{:x}", gen_small_cell(r), *r.pick(&[65535u64, 65536, 65537]))
+            } else if ns > 8 || r.chance(3, 4) {
+                // value lists of batch statements are short in practice; keeps long batches cheap
+                let n = r.below(5);
+                if n == 0 { "-".into() } else { (0..n).map(|_| gen_cell(r)).collect::<Vec<_>>().join(",") }
+            } else {
+                gen_cells(r, false)
+            }
         })
         .collect();
     // mode v (Vec<SerializedValues>) cannot carry more than 65535 values per list
@@ -640,14 +698,14 @@ fn gen_startup(r: &mut Rng) -> String {
         .iter()
         .map(|k| {
             let v = match r.below(30) {
-                0 => rep_bytes(b'v', *r.pick(&[65535usize, 65536])),
+                0 if r.chance(1, 10) => rep_bytes(b'v', *r.pick(&[65535usize, 65536])),
                 1 => "-".into(),
                 _ => hex_bytes(r.pick(&["4.0.0", "lz4", "snappy", "ScyllaDB Rust Driver", "1.4.0", "app", "mask=1", "żółć"]).as_bytes()),
             };
             format!("{}={}", hex_bytes(k.as_bytes()), v)
         })
         .collect();
-    if r.chance(1, 40) {
+    if r.chance(1, 300) {
         items.push(format!("{}=-", rep_bytes(b'k', *r.pick(&[65535usize, 65536]))));
     }
     format!("S {} {} {}", gen_comp(r), gen_tr(r), if items.is_empty() { "-".into() } else { items.join(",") })
@@ -666,7 +724,7 @@ fn gen_auth(r: &mut Rng) -> String {
     let t = match r.below(8) {
         0 => "N".into(),
         1 => "-".into(),
-        2 => rep_bytes(0, *r.pick(&[65535usize, 65536, 200000])),
+        2 if r.chance(1, 12) => rep_bytes(0, *r.pick(&[65535usize, 65536, 200000])),
         _ => {
             let mut b = vec![0u8];
             b.extend_from_slice(b"cassandra");
@@ -722,6 +780,10 @@ fn boundary_cases() -> Vec<String> {
         v.push(format!("B {} 0 c 0 6 - - p01,p02 -;n*10000", c));
         v.push(format!("B {} 0 c 0 6 - - p01,p02 n*10000", c));
     }
+    // sizes only: small bodies and one body of 4 GiB + 34 bytes (needs ~5 GiB for ~3 s; skipped if memory is short)
+    v.push("L 3 400".into());
+    v.push("L 0 0".into());
+    v.push("L 4 40000000".into());
     v
 }
 
